@@ -223,6 +223,33 @@ def catalogue(pt):
     add("Gtxn[256].fee", lambda: pt.Gtxn[256].fee(), "out-of-range")
     add("Gitxn[256].fee", lambda: pt.Gitxn[256].fee(), "out-of-range")
     add("Int(2^64)", lambda: I(2 ** 64), "out-of-range")
+    # literal-argument hazards: Python bools / int subclasses where an int is expected; outcome must be a PyTeal error or legal TEAL
+    import enum
+    class _E(enum.IntEnum):
+        A = 3
+    class _MyInt(int):
+        def __str__(self):
+            return "myint"
+        __repr__ = __str__
+    for nm, val in (("True", True), ("False", False), ("IntEnum", _E.A), ("IntSubclass", _MyInt(5))):
+        add("Int(%s)" % nm, lambda val=val: I(val), "literal")
+        add("Int(%s)+1" % nm, lambda val=val: I(val) + I(1), "literal")
+        add("Substring(Int(%s))" % nm, lambda val=val: pt.Substring(B("abcdef"), I(False) if val is True else I(0), I(val)), "literal")
+        add("Substring(Int(%s),3)" % nm, lambda val=val: pt.Substring(B("abcdef"), I(val), I(6)), "literal")
+        add("Extract(Int(%s))" % nm, lambda val=val: pt.Extract(B("abcdef"), I(val), I(1)), "literal")
+        add("Extract(0,Int(%s))" % nm, lambda val=val: pt.Extract(B("abcdef"), I(0), I(val)), "literal")
+        add("Suffix(Int(%s))" % nm, lambda val=val: pt.Suffix(B("abcdef"), I(val)), "literal")
+        add("Replace(Int(%s))" % nm, lambda val=val: pt.Replace(B("abcdef"), I(val), B("z")), "literal")
+        add("WideRatio(Int(%s))" % nm, lambda val=val: pt.WideRatio([I(val), I(3)], [I(2)]), "literal")
+        add("Txn.application_args[%s]" % nm, lambda val=val: T.application_args[val], "literal")
+        add("Gtxn[%s].fee" % nm, lambda val=val: pt.Gtxn[val].fee(), "literal")
+        add("Gtxn[1].accounts[%s]" % nm, lambda val=val: pt.Gtxn[1].accounts[val], "literal")
+        add("Arg(%s)" % nm, lambda val=val: pt.Arg(val), "literal")
+        add("ScratchVar(%s)" % nm, lambda val=val: (lambda v: pt.Seq(v.store(I(1)), v.load()))(pt.ScratchVar(pt.TealType.uint64, val)), "literal")
+        add("ImportScratchValue(%s)" % nm, lambda val=val: pt.ImportScratchValue(val, val), "literal")
+        add("GeneratedID(%s)" % nm, lambda val=val: pt.GeneratedID(val), "literal")
+        add("BytesZero(Int(%s))" % nm, lambda val=val: pt.BytesZero(I(val)), "literal")
+        add("If(Int(%s))" % nm, lambda val=val: pt.If(I(val), I(2), I(3)), "literal")
     # ---- scratch
     for sid in (0, 1, 128, 255):
         add("ScratchVar(%d)" % sid, lambda sid=sid: (lambda v: pt.Seq(v.store(I(1)), v.load()))(pt.ScratchVar(pt.TealType.uint64, sid)))
@@ -983,6 +1010,10 @@ TAIL_TEMPLATES = [
     ("cond", [("ifelse", X, X), X]), ("cond", [X, ("ifelse", X, X)]), ("ifelse", ("cond", [X, X]), X),
     ("ifelse", X, ("cond", [X, X])), ("cond", [X, ("cond", [X, X])]), ("ifelse", ("ifelse", X, X), X),
     ("cond", [X, X, ("if", X)]), ("ifelif", ("cond", [X, X]), X, X),
+    # loop tails: the routine's last statement is a loop; inside a loop a staying leaf rotates over Break / Continue / plain
+    ("while1", X), ("while2", X), ("whilec", X), ("for", X),
+    ("while1", ("if", X)), ("while1", ("ifelse", X, X)), ("while2", ("if", X)), ("whilec", ("ifelse", X, X)), ("for", ("if", X)),
+    ("while1", ("cond", [X, X])), ("for", ("ifelse", X, X)), ("ifelse", ("while1", ("if", X)), X), ("while1", ("while1", ("if", X))),
 ]
 TAIL_WHERE = ["sub_none", "sub_none_prefix", "sub_value", "main"]
 
@@ -1016,10 +1047,14 @@ def gen_tail_program(pt, ti, mask, where, follow, app):
     v = pt.ScratchVar(pt.TealType.uint64)
     in_sub = where != "main"
     value_sub = where == "sub_value"
+    loop_depth = [0]
+    w = pt.ScratchVar(pt.TealType.uint64)
 
     def leaf():
         i = counter[0]
         counter[0] += 1
+        if loop_depth[0] and not (mask >> i) & 1:
+            return [pt.Break, lambda: pt.Seq(pt.Pop(I(4)), pt.Break()), pt.Continue, lambda: pt.Pop(I(30 + i))][(i + mask) % 4]()
         if (mask >> i) & 1:
             if not in_sub:
                 kinds = [lambda: pt.Return(I(1)), pt.Approve, pt.Reject, pt.Err]
@@ -1039,6 +1074,15 @@ def gen_tail_program(pt, ti, mask, where, follow, app):
             return leaf()
         if t[0] == "cond":
             return pt.Cond(*[[cond_expr(), build(a)] for a in t[1]])
+        if t[0] in ("while1", "while2", "whilec", "for"):
+            loop_depth[0] += 1
+            inner = build(t[1])
+            loop_depth[0] -= 1
+            step = w.store(w.load() + I(1))
+            if t[0] == "for":
+                return pt.For(w.store(I(0)), w.load() < I(3), step).Do(inner)
+            c = {"while1": I(1), "while2": I(2), "whilec": w.load() < I(3)}[t[0]]
+            return pt.Seq(w.store(I(0)), pt.While(c).Do(pt.Seq(step, inner)))
         if t[0] == "if":
             return pt.If(cond_expr()).Then(build(t[1]))
         if t[0] == "ifelse":
